@@ -34,6 +34,29 @@ class FakeErr(Exception):
         return 19
 
 
+class ElemErr(Exception):
+    """an ELEMENT that happens to be an exception instance (a queue of results-or-errors): it is delivered like any other
+    element - returned, not raised"""
+
+    def __init__(self, tag):
+        super().__init__(tag)
+        self.tag = tag
+
+    def __bool__(self):
+        return False
+
+    def __eq__(self, other):
+        return isinstance(other, (ElemErr, Falsy))
+
+    def __hash__(self):
+        return 17
+
+
+def elem(k):
+    """element number k: a falsy object, every third one an exception instance"""
+    return ElemErr(k) if k % 3 == 0 else Falsy(k)
+
+
 class QueueDriver:
     """real AsyncQueue + one consumer task, driven action by action through the public API"""
 
@@ -46,7 +69,7 @@ class QueueDriver:
         n = len(init["buf"]) if init else 0
         # the elements are FALSY objects (an element is an arbitrary user value - None, 0, an empty container ...):
         # element number k travels as Falsy(k) and is reported by its number
-        self.q = AsyncQueue(*[Falsy(i) for i in range(1, n + 1)], loop=self.loop)
+        self.q = AsyncQueue(*[elem(i) for i in range(1, n + 1)], loop=self.loop)
         self.n = n
         self.task = None
         self.creq = False
@@ -58,7 +81,7 @@ class QueueDriver:
     def apply(self, name, args):
         if name == "Enqueue":
             k = args[0]
-            es = [Falsy(self.n + i + 1) for i in range(k)]
+            es = [elem(self.n + i + 1) for i in range(k)]
             try:
                 self.q.enqueue(*es)
             except RuntimeError:
@@ -96,7 +119,7 @@ class QueueDriver:
         e = t.exception()
         if e is None:
             r = t.result()
-            return ("val", r.tag if isinstance(r, Falsy) else f"foreign element {r!r}")
+            return ("val", r.tag if isinstance(r, (Falsy, ElemErr)) else f"foreign element {r!r}")
         if isinstance(e, StopAsyncIteration):
             return ("exc", "stop")
         if e is self.err:
